@@ -13,7 +13,7 @@ while read seed prop args; do
   if git apply --check "$patch" 2>/dev/null; then git apply "$patch";
   elif git apply --3way "$patch" 2>/dev/null && [ -z "$(git diff --name-only --diff-filter=U)" ]; then git reset -q;
   else echo "== $seed $prop: PATCH DOES NOT APPLY" >> $out; git checkout -q -- .; continue; fi
-  r=$(cd /verif && VERIF_REPO=$W VERIF_EVIDENCE_DIR=/tmp/seed_ev VERIF_REPLAY_DIR=/tmp/seed_rep VERIF_JOBS=6 timeout 1500 ./check.py $prop $args 2>/dev/null | grep -E "^(VIOLATION|SUMMARY)" | cut -c1-230)
+  r=$(cd /verif && VERIF_REPO=$W VERIF_EVIDENCE_DIR=/tmp/seed_ev VERIF_REPLAY_DIR=/tmp/seed_rep VERIF_JOBS=6 timeout 1500 ./check.py $prop $args 2>/dev/null | grep -E "^(VIOLATION|SUMMARY|INCONCLUSIVE)" | cut -c1-230)
   echo "== $seed $prop $args" >> $out; echo "$r" >> $out
 done
 cd /; git -C /repo worktree remove --force $W
